@@ -9,6 +9,7 @@ package main
 //	                                                              -> resolve_task
 //	compose/graph_manager.go  (*channelManager).updateValues: the loop over the values written to one
 //	                          target (`for from, value := range fromMap`)   -> update_from_map
+//	internal/callbacks/inject.go  func OnWithStreamHandle             -> on_with_stream_handle
 //
 // The translated fragment is a small imperative language over int variables, slices of stream values /
 // node keys and the handle store: `x := e`, `x = e`, `if init; cond { ... }` without else (the variables
@@ -44,7 +45,9 @@ const c19AcctNeutral = "(* Gen/AcctCode.v — translator tie UNAVAILABLE: tools/
 	"Definition resolve_task (t : task) (output : handle) (st : store) : res resolved := StreamAcct.resolve_task t output st.\n" +
 	"Definition update_from_map (v_dps : list key) (v_fromMap : list (key * handle)) : upd_acc :=\n" +
 	"  {| ua_kept := filter (fun kv => memb (fst kv) v_dps) v_fromMap;\n" +
-	"     ua_closed := map snd (filter (fun kv => negb (memb (fst kv) v_dps)) v_fromMap) |}.\n"
+	"     ua_closed := map snd (filter (fun kv => negb (memb (fst kv) v_dps)) v_fromMap) |}.\n" +
+	"Definition on_with_stream_handle (v_handlers : list unit) (v_inOut : handle) (st : store) : res (handle * list handle * store) :=\n" +
+	"  Ok (StreamAcct.on_with_stream_handle (List.length v_handlers) v_inOut st).\n"
 
 func init() {
 	register("acctcode", c19ExtractAcctCode)
@@ -1035,6 +1038,85 @@ func c19AcctUpdateValues(fn *ast.FuncDecl) (string, error) {
 		"    else " + el + ").\n", nil
 }
 
+// OnWithStreamHandle: if len(handlers) == 0 { return ctx, inOut } ; inOuts := cpy(N) ;
+// for i, handler := range handlers { ctx = handle(ctx, handler, inOuts[i]) } ; return ctx, inOuts[J]
+func c19AcctOnWithStreamHandle(fn *ast.FuncDecl) (string, error) {
+	t := &c19AcctTr{fn: "OnWithStreamHandle", ints: map[string]bool{}, slices: map[string]string{"handlers": "unit"}, elems: map[string]string{"inOut": c19Gv("inOut")}}
+	var ps []string
+	for _, fl := range fn.Type.Params.List {
+		for _, n := range fl.Names {
+			ps = append(ps, n.Name)
+		}
+	}
+	if strings.Join(ps, ",") != "ctx,inOut,handlers,cpy,handle" {
+		return "", t.errf("parameters (%s)", strings.Join(ps, ", "))
+	}
+	l := fn.Body.List
+	if len(l) != 4 {
+		return "", t.errf("%d statements, expected 4", len(l))
+	}
+	// if <cond on len(handlers)> { return ctx, inOut }
+	is, ok := l[0].(*ast.IfStmt)
+	if !ok || is.Init != nil || is.Else != nil || len(is.Body.List) != 1 {
+		return "", t.errf("statement 1 is not the no-handler test")
+	}
+	c, err := t.cond(is.Cond)
+	if err != nil {
+		return "", err
+	}
+	r0, ok := is.Body.List[0].(*ast.ReturnStmt)
+	if !ok || len(r0.Results) != 2 || c19Squash(types.ExprString(r0.Results[0])) != "ctx" || c19Squash(types.ExprString(r0.Results[1])) != "inOut" {
+		return "", t.errf("the no-handler case does not return the stream itself")
+	}
+	// inOuts := cpy(N)
+	as, ok := l[1].(*ast.AssignStmt)
+	if !ok || as.Tok != token.DEFINE || len(as.Lhs) != 1 || len(as.Rhs) != 1 {
+		return "", t.errf("statement 2 is not inOuts := cpy(n)")
+	}
+	cps, _ := as.Lhs[0].(*ast.Ident)
+	call, ok := as.Rhs[0].(*ast.CallExpr)
+	if !ok || cps == nil || c19CalleeName(call.Fun) != "cpy" || len(call.Args) != 1 {
+		return "", t.errf("statement 2 is not inOuts := cpy(n)")
+	}
+	n, err := t.intExpr(call.Args[0])
+	if err != nil {
+		return "", err
+	}
+	t.slices[cps.Name] = "handle"
+	// for i, handler := range handlers { ctx = handle(ctx, handler, inOuts[i]) }
+	rs, ok := l[2].(*ast.RangeStmt)
+	if !ok || len(rs.Body.List) != 1 || c19Squash(types.ExprString(rs.X)) != "handlers" {
+		return "", t.errf("statement 3 is not the loop over the handlers")
+	}
+	iv, _ := rs.Key.(*ast.Ident)
+	hv, _ := rs.Value.(*ast.Ident)
+	ha, ok := rs.Body.List[0].(*ast.AssignStmt)
+	if !ok || iv == nil || hv == nil || len(ha.Lhs) != 1 || len(ha.Rhs) != 1 || c19Squash(types.ExprString(ha.Lhs[0])) != "ctx" {
+		return "", t.errf("loop body is not ctx = handle(ctx, handler, inOuts[i])")
+	}
+	hc, ok := ha.Rhs[0].(*ast.CallExpr)
+	if !ok || c19CalleeName(hc.Fun) != "handle" || len(hc.Args) != 3 || c19Squash(types.ExprString(hc.Args[1])) != hv.Name ||
+		c19Squash(types.ExprString(hc.Args[2])) != cps.Name+"["+iv.Name+"]" {
+		return "", t.errf("loop body is not ctx = handle(ctx, handler, inOuts[i])")
+	}
+	// return ctx, inOuts[J]
+	r1, ok := l[3].(*ast.ReturnStmt)
+	if !ok || len(r1.Results) != 2 || c19Squash(types.ExprString(r1.Results[0])) != "ctx" {
+		return "", t.errf("final return")
+	}
+	last, err := t.elemExpr(r1.Results[1])
+	if err != nil {
+		return "", err
+	}
+	pre := t.flush("  ")
+	return "Definition on_with_stream_handle (v_handlers : list unit) (v_inOut : handle) (st : store) : res (handle * list handle * store) :=\n" +
+		"  if " + c + " then Ok (v_inOut, [], st)\n" +
+		"  else\n" +
+		"  let '(" + c19Gv(cps.Name) + ", st) := g_cpy v_inOut " + n + " st in\n" +
+		"  do handed <- g_hand_range v_handlers " + c19Gv(cps.Name) + ";\n" +
+		"  " + pre + "Ok (" + last + ", handed, st).\n", nil
+}
+
 func c19ExtractAcctCode(repo string) (string, string, error) {
 	fset := token.NewFileSet()
 	f, err := c19ParseGo(fset, repo, "compose", "graph_run.go")
@@ -1044,6 +1126,14 @@ func c19ExtractAcctCode(repo string) (string, string, error) {
 	fm, err := c19ParseGo(fset, repo, "compose", "graph_manager.go")
 	if err != nil {
 		return "", "", err
+	}
+	fi, err := c19ParseGo(fset, repo, "internal", "callbacks", "inject.go")
+	if err != nil {
+		return "", "", err
+	}
+	ow := c19TopFunc(fi, "OnWithStreamHandle")
+	if ow == nil {
+		return "", "", fmt.Errorf("internal/callbacks.OnWithStreamHandle not found")
 	}
 	ci := c19TopFunc(f, "copyItem")
 	uk := c19TopFunc(f, "uniqueKeys")
@@ -1068,12 +1158,16 @@ func c19ExtractAcctCode(repo string) (string, string, error) {
 	if err != nil {
 		return "", "", err
 	}
+	d5, err := c19AcctOnWithStreamHandle(ow)
+	if err != nil {
+		return "", "", err
+	}
 	var b strings.Builder
 	b.WriteString("(* Gen/AcctCode.v — GENERATED by tools/go2v (extractor \"acctcode\") from compose/graph_run.go (copyItem,\n")
-	b.WriteString("   uniqueKeys, the loop body of resolveCompletedTasks) and compose/graph_manager.go (updateValues),\n")
+	b.WriteString("   uniqueKeys, the loop body of resolveCompletedTasks), compose/graph_manager.go (updateValues) and\n   internal/callbacks/inject.go (OnWithStreamHandle),\n")
 	b.WriteString("   translated statement by statement. Do not edit. *)\n")
 	b.WriteString("From Eino Require Import Base.Util Model.StreamAcct Model.AcctGenLib.\nOpen Scope Z_scope.\n\n")
-	b.WriteString(d1 + "\n" + d2 + "\n" + d3 + "\n" + d4)
+	b.WriteString(d1 + "\n" + d2 + "\n" + d3 + "\n" + d4 + "\n" + d5)
 	return "AcctCode.v", b.String(), nil
 }
 
